@@ -9,7 +9,9 @@
 //
 // The FRAME around them is pattern-checked against its exact text (framePins below) and emitted from a template: the chunk loop as
 // recursion on fuel (chunkLoop), the zero-scalar `continue`, and the column of digits[chunk*len(scalars)+i] of scalar i (scalarDigits).
-// The statements after the first parallel.Execute (chunk statistics) are NOT translated: their text is emitted as `statsSrc`.
+// Chunk statistics (after the first parallel.Execute): the body of `for _, digit := range chunkDigits` is translated (statStep; the bit
+// set b as a function Nat -> Bool, b[k] = true as a point update, uint16 - and & and >>, x++ on int), its frame pattern-checked and
+// emitted from a template (statLoop); the float32 statements are NOT translated: the text of the whole part is emitted as `statsSrc`.
 //
 // Semantics (Model/GoImp.lean conventions): uint64 = Nat with explicit % 2^64 on + - *, << as shl64, >> as >>>, & as &&&;
 // int = unbounded Int (no wrap), int(u) = Int.ofNat u, `x << s` on int = x * 2^s; uint16(x) of an int = (x % 65536).toNat, uint16
@@ -37,6 +39,7 @@ var recodeCurves = []string{"bn254", "bls12-377", "bls12-381", "bls24-315", "bls
 type rcFn struct {
 	dir  string
 	fset *token.FileSet
+	tail string // value of a body whose last statement is an ordinary one (statistics loop)
 }
 
 func (f *rcFn) die(n ast.Node, m string, a ...any) {
@@ -94,6 +97,9 @@ func (f *rcFn) expr(e ast.Expr, env rcEnv, want string) (string, string) {
 		}
 		return v.Value, want
 	case *ast.Ident:
+		if v.Name == "true" || v.Name == "false" {
+			return v.Name, "bool"
+		}
 		if k, ok := env[v.Name]; ok {
 			return v.Name, k
 		}
@@ -116,6 +122,13 @@ func (f *rcFn) expr(e ast.Expr, env rcEnv, want string) (string, string) {
 		f.die(e, "unsupported selector %s.%s", x.Name, v.Sel.Name)
 	case *ast.IndexExpr:
 		x, ok := v.X.(*ast.Ident)
+		if ok && env[x.Name] == "bitset" {
+			i, k := f.expr(v.Index, env, "u16")
+			if k != "u16" {
+				f.die(e, "bit-set index of kind %s", k)
+			}
+			return "(" + x.Name + " " + rcAtom(i) + ")", "bool"
+		}
 		if !ok || env[x.Name] != "limbs" {
 			f.die(e, "unsupported index expression")
 		}
@@ -215,6 +228,8 @@ func (f *rcFn) binary(v *ast.BinaryExpr, env rcEnv, want string) (string, string
 			return "(" + a + " >>> " + rcAtom(b) + ")", "u64"
 		case ka == "int" && v.Op == token.SHL:
 			return "(" + a + " * 2 ^ " + rcAtom(b) + ")", "int"
+		case ka == "u16" && v.Op == token.SHR:
+			return "(" + a + " >>> " + rcAtom(b) + ")", "u16"
 		case ka == "u16" && v.Op == token.SHL:
 			return "((" + a + " * 2 ^ " + rcAtom(b) + ") % 65536)", "u16"
 		}
@@ -268,8 +283,13 @@ func (f *rcFn) binary(v *ast.BinaryExpr, env rcEnv, want string) (string, string
 			return "(" + a + " - " + b + ")", "int"
 		}
 	case "u16":
-		if v.Op == token.ADD {
+		switch v.Op {
+		case token.ADD:
 			return "((" + a + " + " + b + ") % 65536)", "u16"
+		case token.SUB:
+			return "((" + a + " + 65536 - " + b + ") % 65536)", "u16"
+		case token.AND:
+			return "(" + a + " &&& " + b + ")", "u16"
 		}
 	}
 	f.die(v, "unsupported operator %s on %s", v.Op, ka)
@@ -325,11 +345,19 @@ func (f *rcFn) assignedIn(stmts []ast.Stmt) []string {
 				seen[x.Name] = true
 				res = append(res, x.Name)
 			}
+		case *ast.IndexExpr:
+			if x, ok := v.X.(*ast.Ident); ok && !seen[x.Name] {
+				seen[x.Name] = true
+				res = append(res, x.Name)
+			}
 		}
 	}
 	for _, s := range stmts {
 		if a, ok := s.(*ast.AssignStmt); ok && a.Tok != token.DEFINE {
 			add(a.Lhs[0])
+		}
+		if a, ok := s.(*ast.IncDecStmt); ok {
+			add(a.X)
 		}
 	}
 	return res
@@ -418,9 +446,26 @@ func (f *rcFn) stmts(list []ast.Stmt, env rcEnv, ind string, exit string, fin fu
 					f.die(s, "assignment of %s to field %s", ke, lhs.Sel.Name)
 				}
 				b.WriteString(ind + "let " + x.Name + " : Selector := { " + x.Name + " with " + lhs.Sel.Name + " := " + e + " }\n")
+			case *ast.IndexExpr:
+				x, ok := lhs.X.(*ast.Ident)
+				if !ok || env[x.Name] != "bitset" || v.Tok != token.ASSIGN {
+					f.die(s, "unsupported indexed assignment")
+				}
+				i, ki := f.expr(lhs.Index, env, "u16")
+				e, ke := f.expr(v.Rhs[0], env, "bool")
+				if ki != "u16" || ke != "bool" {
+					f.die(s, "bit-set store of kinds %s, %s", ki, ke)
+				}
+				b.WriteString(ind + "let " + x.Name + " := (fun k_ => if k_ = " + i + " then " + e + " else " + x.Name + " k_)\n")
 			default:
 				f.die(s, "unsupported assignment target")
 			}
+		case *ast.IncDecStmt:
+			id, ok := v.X.(*ast.Ident)
+			if !ok || env[id.Name] != "int" || v.Tok != token.INC {
+				f.die(s, "unsupported increment")
+			}
+			b.WriteString(ind + "let " + id.Name + " := (" + id.Name + " + (1 : Int))\n")
 		case *ast.DeclStmt:
 			gd, ok := v.Decl.(*ast.GenDecl)
 			if !ok || gd.Tok != token.VAR || len(gd.Specs) != 1 {
@@ -482,10 +527,9 @@ func (f *rcFn) stmts(list []ast.Stmt, env rcEnv, ind string, exit string, fin fu
 					e2[k] = v
 				}
 				for _, st := range l {
-					if a, ok := st.(*ast.AssignStmt); !ok || a.Tok == token.DEFINE {
-						if !ok {
-							f.die(st, "only assignments are supported inside an if")
-						}
+					_, isInc := st.(*ast.IncDecStmt)
+					if _, ok := st.(*ast.AssignStmt); !ok && !isInc {
+						f.die(st, "only assignments are supported inside an if")
 					}
 				}
 				return f.stmts(l, e2, ind+"    ", "", nil, outer) + ind + "    " + tup + "\n"
@@ -496,7 +540,10 @@ func (f *rcFn) stmts(list []ast.Stmt, env rcEnv, ind string, exit string, fin fu
 		}
 	}
 	if fin != nil {
-		f.die(list[len(list)-1], "the final statement has not the expected shape")
+		if f.tail == "" {
+			f.die(list[len(list)-1], "the final statement has not the expected shape")
+		}
+		b.WriteString(ind + f.tail + "\n")
 	}
 	return b.String()
 }
@@ -703,7 +750,50 @@ func recodeText(curve string) (string, string) {
 	}, rcEnv{"carry": "int"})
 	out.WriteString("/-- the statements after the chunk loop (`chunk := nbChunks - 1` …): the value stored at digits[int(chunk)*len(scalars)+i] -/\n")
 	out.WriteString("def lastStep (c : Nat) (max : Int) (selectors : Nat → Selector) (scalar : Nat → Nat) (chunk : Nat) (carry : Int) : Nat :=\n" + lastBody + "\n")
-	// statistics: not translated, text recorded
+	// statistics: the body of the range loop over one chunk's digits is translated (statStep), its frame pattern-checked
+	f.pin(body[9], "chunkStats := make([]chunkStat, nbChunks)")
+	f.pin(body[10], "if c <= 9 { return digits, chunkStats }")
+	es2, ok := body[11].(*ast.ExprStmt)
+	var call2 *ast.CallExpr
+	if ok {
+		call2, ok = es2.X.(*ast.CallExpr)
+	}
+	if !ok || exprText(call2.Fun) != "parallel.Execute" || len(call2.Args) != 3 || exprText(call2.Args[0]) != "len(chunkStats)" || exprText(call2.Args[2]) != "nbTasks" {
+		f.die(body[11], "expected parallel.Execute(len(chunkStats), func…, nbTasks)")
+	}
+	fl2, ok := call2.Args[1].(*ast.FuncLit)
+	if !ok || len(fl2.Body.List) != 1 {
+		f.die(body[11], "expected a function literal with one loop")
+	}
+	sl2, ok := fl2.Body.List[0].(*ast.ForStmt)
+	if !ok {
+		f.die(fl2, "expected the loop over the chunks")
+	}
+	f.forHeader(sl2, "chunkID := start; chunkID < end; chunkID++")
+	sb := sl2.Body.List
+	if len(sb) != 8 {
+		f.die(sl2, "unexpected shape of the statistics body")
+	}
+	if got := regexp.MustCompile(`bitSetC[0-9]+`).ReplaceAllString(rcNorm(exprTextNode(f.fset, sb[0])), "bitSetC<N>"); got != "var b bitSetC<N>" {
+		f.die(sb[0], "frame statement changed: %s", got)
+	}
+	f.pin(sb[1], "chunkDigits := digits[chunkID*len(scalars) : (chunkID+1)*len(scalars)]")
+	f.pin(sb[2], "totalOps := 0")
+	f.pin(sb[3], "nz := 0")
+	rl, ok := sb[4].(*ast.RangeStmt)
+	if !ok || exprText(rl.Key) != "_" || exprText(rl.Value) != "digit" || exprText(rl.X) != "chunkDigits" || rl.Tok != token.DEFINE {
+		f.die(sb[4], "expected `for _, digit := range chunkDigits`")
+	}
+	f.pin(sb[5], "chunkStats[chunkID].weight = float32(totalOps)")
+	f.pin(sb[6], "chunkStats[chunkID].ppBucketFilled = (float32(nz) * 100.0) / float32(int(1<<(c-1)))")
+	f.pin(sb[7], "chunkStats[chunkID].nbBucketFilled = nz")
+	envT := rcEnv{"b": "bitset", "totalOps": "int", "nz": "int", "digit": "u16"}
+	f.tail = "(b, totalOps, nz)"
+	statBody := f.stmts(rl.Body.List, envT, "  ", "(b, totalOps, nz)", func(rcEnv, ast.Stmt) string { return "" }, rcEnv{})
+	f.tail = ""
+	out.WriteString("/-- body of `for _, digit := range chunkDigits` of the chunk statistics: (bit set b, totalOps, nz) after the body -/\n")
+	out.WriteString("def statStep (b : Nat → Bool) (totalOps : Int) (nz : Int) (digit : Nat) : (Nat → Bool) × Int × Int :=\n" + statBody + "\n")
+	// statistics: text recorded as well
 	var st []string
 	for _, s := range body[9:] {
 		st = append(st, rcNorm(exprTextNode(f.fset, s)))
@@ -712,7 +802,12 @@ func recodeText(curve string) (string, string) {
 	return out.String(), regexp.MustCompile(`bitSetC[0-9]+`).ReplaceAllString(strings.Join(st, " ; "), "bitSetC<N>")
 }
 
-const rcFrame = `/-- the chunk loop ` + "`for chunk := uint64(0); chunk < nbChunks-1; chunk++`" + ` as recursion on fuel: the entries of the column of one scalar written so far
+const rcFrame = `/-- the statistics of one chunk: ` + "`var b bitSetC<N>`" + ` (all false), ` + "`totalOps := 0`, `nz := 0`" + `, then the range loop over
+chunkDigits = digits[chunkID*len(scalars) : (chunkID+1)*len(scalars)]; (totalOps, nz) are what weight / nbBucketFilled / ppBucketFilled are computed from -/
+def statLoop (chunkDigits : List Nat) : (Nat → Bool) × Int × Int :=
+  chunkDigits.foldl (fun st digit => statStep st.1 st.2.1 st.2.2 digit) (fun _ => false, 0, 0)
+
+/-- the chunk loop ` + "`for chunk := uint64(0); chunk < nbChunks-1; chunk++`" + ` as recursion on fuel: the entries of the column of one scalar written so far
 (entry ` + "`chunk`" + ` of the column is digits[int(chunk)*len(scalars)+i]; a ` + "`continue`" + `d entry keeps the 0 of make) and the carry -/
 def chunkLoop (c : Nat) (max : Int) (selectors : Nat → Selector) (scalar : Nat → Nat) (nbChunks : Nat) : Nat → Nat → Int → List Nat → List Nat × Int
   | 0, chunk, carry, col => (col, carry)
